@@ -2,3 +2,5 @@ import TerwayModel.Model.Net
 import TerwayModel.Props.C14
 import TerwayModel.Model.Token
 import TerwayModel.Props.C16
+import TerwayModel.Model.VSwitch
+import TerwayModel.Props.C17
